@@ -29,13 +29,14 @@ type Fault struct {
 type Plan struct {
 	mu     sync.Mutex
 	Faults []*Fault
-	host   *Host
 }
 
 // Install sets the plan as the interceptor of h.
-func (p *Plan) Install(h *Host) *Plan {
-	p.host = h
-	h.Intercept = p.intercept
+func (p *Plan) Install(hosts ...*Host) *Plan {
+	for _, h := range hosts {
+		h := h
+		h.Intercept = func(ev *Event, w http.ResponseWriter, r *http.Request) bool { return p.intercept(h, ev, w, r) }
+	}
 	return p
 }
 
@@ -50,7 +51,7 @@ func (p *Plan) FiredTotal() int {
 	return n
 }
 
-func (p *Plan) intercept(ev *Event, w http.ResponseWriter, r *http.Request) bool {
+func (p *Plan) intercept(h *Host, ev *Event, w http.ResponseWriter, r *http.Request) bool {
 	p.mu.Lock()
 	var fire *Fault
 	for _, f := range p.Faults {
@@ -72,6 +73,12 @@ func (p *Plan) intercept(ev *Event, w http.ResponseWriter, r *http.Request) bool
 	}
 	ev.Fault = fire.Action
 	act, arg, arg2 := splitAction(fire.Action)
+	if act == "slowstatus" {
+		// a request that hangs for a while and then fails (arg2 = milliseconds)
+		ms, _ := strconv.Atoi(arg2)
+		time.Sleep(time.Duration(ms) * time.Millisecond)
+		act, arg2 = "status", ""
+	}
 	switch act {
 	case "status":
 		code, _ := strconv.Atoi(arg)
@@ -94,8 +101,11 @@ func (p *Plan) intercept(ev *Event, w http.ResponseWriter, r *http.Request) bool
 		ev.Status = -1
 		DropConn(w)
 		return true
-	case "stall":
+	case "stall", "stallcall":
 		ev.Status = -2
+		if act == "stallcall" && fire.Call != nil {
+			fire.Call(ev)
+		}
 		select {
 		case <-r.Context().Done():
 		case <-time.After(30 * time.Second):
@@ -113,7 +123,6 @@ func (p *Plan) intercept(ev *Event, w http.ResponseWriter, r *http.Request) bool
 		return false
 	case "cut":
 		n, _ := strconv.Atoi(arg)
-		h := p.host
 		h.W.mu.Lock()
 		resp := h.apply(ev, r, ev.Body)
 		h.W.mu.Unlock()
